@@ -257,7 +257,24 @@ class Rewriter:
     def bump(self, rule, k=1):
         self.counts[rule] = self.counts.get(rule, 0) + k
 
+    def r8_nan(self, toks):
+        out = []
+        i, n = 0, len(toks)
+        while i < n:
+            if toks[i].kind == L.IDENT and toks[i].text == "f64":
+                j = L.skip_trivia(toks, i + 1, n)
+                k = L.skip_trivia(toks, j + 1, n) if j < n else n
+                if j < n and toks[j].text == "::" and k < n and toks[k].text == "NAN":
+                    out.append(L.Tok(L.IDENT, "R::nan()", toks[i].line))
+                    self.bump("R8")
+                    i = k + 1
+                    continue
+            out.append(toks[i])
+            i += 1
+        return out
+
     def run(self, toks):
+        toks = self.r8_nan(toks)
         toks = self.r3_casts(toks)
         toks = self.r5_map_err(toks)
         out = []
@@ -496,9 +513,32 @@ class Unit:
             hdr_toks = rw.run(hdr_toks)
             self.bump_rules(rw.counts)
         text = emitted if emitted else text_of(hdr_toks).strip()
+        # self type of the emitted impl (for qualified obligation names)
+        h = re.sub(r"^impl\s*(<[^{]*?>)?\s+(?=[A-Za-z(])", "impl ", re.sub(r"\s+", " ", text)) if not re.match(r"impl\s*<", text) else None
+        if h is None:
+            depth, i = 0, text.index("<")
+            for j in range(i, len(text)):
+                if text[j] == "<": depth += 1
+                elif text[j] == ">" and text[j - 1] != "-":
+                    depth -= 1
+                    if depth == 0: break
+            h = "impl " + text[j + 1:].strip()
+        h = h.split(" where ")[0]
+        st = h.split(" for ")[-1] if " for " in h else h[len("impl "):]
+        self.cur_self = re.match(r"\s*\(?\s*([A-Za-z_]\w*)", st).group(1) if re.match(r"\s*\(?\s*([A-Za-z_]\w*)", st) else "?"
         if emitted:
             self.log.setdefault("rehomed", []).append({"repo_header": want, "emitted": emitted})
         self.emit(text + " {")
+        # associated types of a trait impl come along
+        for im in cands[:1]:
+            for c in im.children():
+                if c.kind == "type" and im.kind == "impl":
+                    tt, _, _ = strip_docs_attrs(c.toks[c.start:c.end])
+                    if self.mode == "ideal":
+                        rw = Rewriter(float_param=self.cur_fp)
+                        tt = rw.run(tt)
+                        self.bump_rules(rw.counts)
+                    self.emit("    " + text_of(tt).strip())
 
     def close_impl(self):
         self.emit("}")
@@ -590,7 +630,8 @@ class Unit:
         full = re.sub(r"\n\s*\n+", "\n", full)
         label = ("%s::%s" % (want, spec["name"])) if not free else spec["name"]
         self.emit("    " + full.strip("\n"), label=label, repo=(rel, it.first_line, it.last_line))
-        self.log["fns"].append({"fn": label, "file": rel, "lines": [it.first_line, it.last_line],
+        self.log["fns"].append({"fn": label, "qual": (spec["name"] if free else "%s::%s" % (self.cur_self, spec["name"])),
+                                "contract": spec["clauses"], "file": rel, "lines": [it.first_line, it.last_line],
                                 "clauses": len(spec["clauses"]), "loop_specs": sum(len(v) for v in spec["loops"].values()),
                                 "body_tokens": len(code_toks(body))})
 
@@ -645,8 +686,22 @@ class Unit:
         self.log["items"].append({"item": "const " + name, "file": rel, "lines": [it.first_line, it.last_line]})
 
     # ---- driver
+    def read_template(self, path, depth=0):
+        """template lines with `//@include <file>` expanded (relative to verus/)"""
+        out = []
+        for ln in open(path).read().split("\n"):
+            m = re.match(r"\s*//@include\s+(\S+)", ln)
+            if m:
+                if depth > 4:
+                    raise Unsupported("include depth")
+                inc = os.path.join(os.path.dirname(os.path.dirname(os.path.abspath(self.path))), m.group(1))
+                out.extend(self.read_template(inc, depth + 1))
+            else:
+                out.append(ln)
+        return out
+
     def build(self):
-        lines = open(self.path).read().split("\n")
+        lines = self.read_template(self.path)
         self.cur_impl = None
         i = 0
         n = len(lines)
